@@ -8,12 +8,17 @@ args = [a for a in sys.argv[1:] if not a.startswith("--")]
 notests = "--no-tests" in sys.argv
 desc = json.load(open(os.path.join(S, "descriptions.json")))
 names = args or sorted(d for d in os.listdir(S) if os.path.isdir(os.path.join(S, d)) and not d.startswith("_"))
-EXTRA = {"C11-I": "C11,C01", "C07-A": "C07,C04,C05", "C05-A": "C05,C04,C07", "C04-B": "C04,C07,C05", "C08-B": "C08,C03", "C03-B": "C03,C08"}
+EXTRA = {"C11-I": "C11,C01", "C07-A": "C07,C04,C05", "C05-A": "C05,C04,C07", "C04-B": "C04,C07,C05", "C08-B": "C08,C03", "C03-B": "C03,C08",
+         # the same change as C08-O (kernels before a sync record at equal timestamps): the backward edge it creates is what C08 judges;
+         # C09 sees it only when the reported path runs through that edge
+         "C09-O": "C09,C08"}
+# changes that need more than 65536 trace rows / 32768 host calls in one rank: thorough tier only
+TIER = {"C19-L": "thorough", "C02-O": "thorough"}
 
 def one(n):
     prop = n.split("-")[0]
     cmd = [os.path.join(HERE, "tools", "seedcheck.py"), n, prop, os.path.join(S, n, "patch.diff"), os.path.join(S, n, "demo.py"),
-           "--needs", desc.get(n, {}).get("needs", ""), "--checks", EXTRA.get(n, prop)] + (["--no-tests"] if notests else [])
+           "--needs", desc.get(n, {}).get("needs", ""), "--checks", EXTRA.get(n, prop), "--tier", TIER.get(n, "quick")] + (["--no-tests"] if notests else [])
     p = subprocess.run(cmd, stdout=subprocess.PIPE, stderr=subprocess.STDOUT, text=True)
     m = json.load(open(os.path.join(S, n, "meta.json")))
     m["what"] = desc.get(n, {}).get("what", "")
